@@ -157,7 +157,7 @@ def main():
     }
     if 'leanchecker' in gate:
         ev['coverage']['leanchecker'] = gate['leanchecker']
-    if not args.replay:
+    if not args.replay and not os.environ.get('VERIF_NO_EVIDENCE'):
         os.makedirs(os.path.join(core.VERIF, 'evidence'), exist_ok=True)
         json.dump(ev, open(os.path.join(core.VERIF, 'evidence', prop + '.json'), 'w'), indent=1, ensure_ascii=False)
     print('%s %s: %d cases (%d distinct non-trivial), %d/%d theorems, %d violation(s), %.1fs' % (
